@@ -8,6 +8,41 @@ def run (b : Br) : List Nat → List String
     let p := peek b n
     let d := discard (n + 1) p.2 (n / 2)
     s!"{toHex p.1.1}:{if p.1.2 then 1 else 0}:{d.1}" :: run d.2 t
+
+/-  bufio.ops <hex> <sched a,b,..|-> <size> <lims a,b,..|-> <op> ...   ops: P<n> Peek, D<n> Discard, R<n> Read(len n),
+    F<n> io.ReadFull(n), B<n> box.Read(len n), G<n> io.ReadFull over the box (n)  -> one token per op -/
+def lims (ls : List Nat) : String := ",".intercalate (ls.map toString)
+def hexOr (b : Bytes) : String := if b.isEmpty then "-" else toHex b
+def runOps : Br → List Nat → List String → Option (List String)
+  | _, _, [] => some []
+  | b, ls, op :: t => do
+    let n ← (String.ofList (op.toList.drop 1)).toNat?
+    match op.toList.head? with
+    | some 'P' =>
+      let p := peek b n
+      let r ← runOps p.2 ls t
+      pure (s!"{hexOr p.1.1}:{if p.1.2 then 1 else 0}" :: r)
+    | some 'D' =>
+      let d := discard (n + 1) b n
+      let r ← runOps d.2 ls t
+      pure (s!"{d.1}" :: r)
+    | some 'R' =>
+      match b.read n with
+      | (none, b') => do let r ← runOps b' ls t; pure ("EOF" :: r)
+      | (some got, b') => do let r ← runOps b' ls t; pure (hexOr got :: r)
+    | some 'F' =>
+      let f := readFull (n + 1) b n
+      let r ← runOps f.2.2 ls t
+      pure (s!"{hexOr f.1}:{if f.2.1 then 1 else 0}" :: r)
+    | some 'B' =>
+      match boxRead ls b n with
+      | (none, ls', b') => do let r ← runOps b' ls' t; pure (s!"EOF:{lims ls'}" :: r)
+      | (some got, ls', b') => do let r ← runOps b' ls' t; pure (s!"{hexOr got}:{lims ls'}" :: r)
+    | some 'G' =>
+      let g := boxReadFull (n + 1) ls b n
+      let r ← runOps g.2.2.2 g.2.2.1 t
+      pure (s!"{hexOr g.1}:{if g.2.1 then 1 else 0}:{lims g.2.2.1}" :: r)
+    | _ => none
 def handle : List String → Option String
   | ["bufio.peek", hex, sched, size, ns] => do
       let b ← parseHex hex
@@ -15,5 +50,12 @@ def handle : List String → Option String
       let size ← size.toNat?
       let ns ← (ns.splitOn ",").mapM (·.toNat?)
       pure (" ".intercalate (run { buf := [], src := { rest := b, sched := sc }, size := size } ns))
+  | "bufio.ops" :: hex :: sched :: size :: lm :: ops => do
+      let b ← if hex == "-" then some [] else parseHex hex
+      let sc ← if sched == "-" then some [] else (sched.splitOn ",").mapM (·.toNat?)
+      let size ← size.toNat?
+      let ls ← if lm == "-" then some [] else (lm.splitOn ",").mapM (·.toNat?)
+      let out ← runOps { buf := [], src := { rest := b, sched := sc }, size := size } ls ops
+      pure (" ".intercalate out)
   | _ => none
 end Imeta.BufioDrv
